@@ -37,9 +37,35 @@ def conv_cases(res, st, tier, work):
     # walk both files in step: the k-th ALT of a case corresponds to the k-th V line
     cases = edcommon.split_cases(ti)
     mcases = dict(edcommon.split_cases(tm))
+    exact = inexact = multi = 0
     for n, lines in cases:
         alts = [l for l in lines if l.startswith("ALT ")]
         vs = [l for l in mcases.get(n, []) if l.startswith("V ")]
+        # the engine model (Model/Engine.v) against the implementation: every alternative, in rank order
+        for k in "012":
+            mx = [l for l in mcases.get(n, []) if l.startswith("MX %s " % k)]
+            ia = [l[6:] for l in alts if l.startswith("ALT %s " % k)]
+            ma = [l[7:] for l in mcases.get(n, []) if l.startswith("MALT %s " % k)]
+            if not mx or any(" PANIC" in a for a in alts if a.startswith("ALT %s " % k)):
+                continue
+            inp = [l for l in lines if not l.startswith("ALT ")]
+            if "exact=1" in mx[0]:
+                exact += 1
+                multi += 1 if len(ia) > 1 else 0
+                if ia != ma:
+                    st["broken"].append({"obligation": "correspondence: the engine model (find_k_paths / trim_paths / ranking) and "
+                                         "the implementation return different alternatives for engine %s" % k,
+                                         "case_lines": inp, "detail": "impl %s | model %s" % (ia[:4], ma[:4])})
+                    return out
+            elif "exact=0" in mx[0]:
+                inexact += 1
+            else:
+                st["broken"].append({"obligation": "correspondence: the engine model does not return normally (%s) where the "
+                                     "implementation does" % mx[0], "case_lines": inp, "detail": mx[0]})
+                return out
+        res.notes["engine_model_exact_runs"] = exact
+        res.notes["engine_model_inexact_runs"] = inexact
+        res.notes["engine_model_runs_with_alternatives"] = multi
         for k, a in enumerate(alts):
             v = vs[k] if k < len(vs) else "V ? missing"
             inp = [l for l in lines if not l.startswith("ALT ")] + [a]
